@@ -192,10 +192,21 @@ func vfClientRecvIdle(c *Client) bool {
 	return true
 }
 
-func vfRetryLoopAlive() bool {
+// vfRetryLoopAliveFor: a reconnection is in progress for exactly this StreamManager / Client (the receiver
+// pointers are the first arguments printed in the frames). Loops left behind by earlier cases do not count.
+func vfRetryLoopAliveFor(sm *StreamManager, c *Client) bool {
+	needles := []string{
+		fmt.Sprintf("gosrc.io/xmpp.(*StreamManager).resume(%p", sm),
+		fmt.Sprintf("gosrc.io/xmpp.(*StreamManager).connect(%p", sm),
+		fmt.Sprintf("gosrc.io/xmpp.(*Client).Resume(%p", c),
+		fmt.Sprintf("gosrc.io/xmpp.(*Client).connect(%p", c),
+		fmt.Sprintf("gosrc.io/xmpp.(*Client).Connect(%p", c),
+	}
 	for _, g := range vfGoroutines() {
-		if vfHasFrame(g, "gosrc.io/xmpp.(*StreamManager).resume") || vfHasFrame(g, "gosrc.io/xmpp.(*backoff).wait") || vfHasFrame(g, "gosrc.io/xmpp.(*Client).Resume") || vfHasFrame(g, "gosrc.io/xmpp.(*Client).connect") {
-			return true
+		for _, n := range needles {
+			if strings.Contains(g.Text, n) {
+				return true
+			}
 		}
 	}
 	return false
@@ -230,6 +241,7 @@ func vfC13Run(run *vfkit.Run, cs *vfC13Case) {
 	})
 	runDone := make(chan error, 1)
 	go func() { runDone <- sm.Run() }()
+	vfRetryLoopAlive := func() bool { return vfRetryLoopAliveFor(sm, c) }
 	stopped := false
 	stop := func() bool {
 		if stopped {
@@ -297,8 +309,18 @@ func vfC13Run(run *vfkit.Run, cs *vfC13Case) {
 			return false
 		}
 		out := fmt.Sprintf("pong-%d-%d", cs.Seed, s.n)
-		if err := c.Send(stanza.Message{Attrs: stanza.Attrs{Id: out, To: "peer@localhost"}, Body: "yes"}); err != nil {
-			run.Violation("C13/cannot-send-on-new-session:"+tag, fmt.Sprintf("session %d: Send returned %v", s.n, err), cs)
+		sent := make(chan error, 1)
+		go func() {
+			sent <- c.Send(stanza.Message{Attrs: stanza.Attrs{Id: out, To: "peer@localhost"}, Body: "yes"})
+		}()
+		select {
+		case err := <-sent:
+			if err != nil {
+				run.Violation("C13/cannot-send-on-new-session:"+tag, fmt.Sprintf("session %d: Send returned %v", s.n, err), cs)
+				return false
+			}
+		case <-time.After(15 * time.Second):
+			run.Violation("C13/send-blocks-on-new-session:"+tag, fmt.Sprintf("session %d is established and receiving, but Send has not returned after 15s", s.n), cs)
 			return false
 		}
 		if !vfWaitUntil(15*time.Second, func() bool { return strings.Contains(s.pc.ClearBytes(), out) }) {
@@ -390,6 +412,33 @@ func vfC13Run(run *vfkit.Run, cs *vfC13Case) {
 			vp.mu.Unlock()
 			cur.cmds <- "fin"
 			permanent = true
+		}
+		if f != "graceful" && f != "stop-during-outage" {
+			// the application does not know yet: it tries to send while the connection is gone (the result does not
+			// matter - an error is fine - but it must not poison the session that follows)
+			go func(n int) {
+				for i := 0; i < 3; i++ {
+					c.Send(stanza.Message{Attrs: stanza.Attrs{Id: fmt.Sprintf("during-outage-%d-%d-%d", cs.Seed, n, i), To: "peer@localhost"}, Body: "anyone?"})
+					time.Sleep(2 * time.Millisecond)
+				}
+			}(fi)
+		}
+		if f == "stop-during-outage" {
+			// Stop while the retry loop is running and the server refuses connections: Run must return
+			peer.CloseListener()
+			cur.cmds <- "rst"
+			vfWaitUntil(10*time.Second, func() bool { return vfRetryLoopAlive() })
+			time.Sleep(60 * time.Millisecond) // a few back-off periods into the outage
+			ok := stop()
+			peer.Reopen()
+			if !ok {
+				run.Violation("C13/stop-does-not-end-run:during-outage", "Stop was called while the reconnection loop was running (server refusing connections); Run did not return within 15s", cs)
+				return
+			}
+			run.Count("stops_during_outage", 1)
+			run.Count("sequences_completed", 1)
+			run.Nontrivial(fmt.Sprintf("%v|%s", cs.SM, shape))
+			return
 		}
 		if permanent {
 			// the retry loop must end, and no further attempt may follow
@@ -496,7 +545,7 @@ func TestVf_C13(t *testing.T) {
 		vfC13Run(run, &rc)
 		return
 	}
-	alphabet := []string{"rst", "fin", "graceful", "refuse-1", "refuse-2", "refuse-4", "down-1", "down-2", "garbage", "loss-in-postconnect", "permanent-sasl"}
+	alphabet := []string{"rst", "fin", "graceful", "refuse-1", "refuse-2", "refuse-4", "down-1", "down-2", "garbage", "loss-in-postconnect", "stop-during-outage", "permanent-sasl"}
 	var cases []*vfC13Case
 	// every single fault, with and without SM
 	for _, smOn := range []bool{false, true} {
@@ -512,7 +561,7 @@ func TestVf_C13(t *testing.T) {
 		for j := 0; j < l; j++ {
 			f := alphabet[r.Intn(len(alphabet))]
 			cs.Faults = append(cs.Faults, f)
-			if f == "permanent-sasl" {
+			if f == "permanent-sasl" || f == "stop-during-outage" {
 				break
 			}
 		}
